@@ -53,4 +53,32 @@ def hasTimeSpecifier (spec : Char → Bool) (s : List Char) : R := walkGuarded s
 
 def hasTimeSpecifierFind (spec : Char → Bool) (s : List Char) : R := walkFind spec s (s.length + 1) (findFrom '%' s 0)
 
+/-- the guard in front of a constant index into a local list that may be None, empty or non-empty
+    (`tokens = self.dialect.tokenize(text)` / `except TokenError: tokens = None`) -/
+inductive ListGuard where
+  | truthy    -- `if tokens and tokens[0] …`
+  | notNone   -- `if tokens is not None and tokens[0] …`
+  | unguarded
+  deriving DecidableEq, Repr
+
+inductive IdxOut (α : Type) where
+  | value (a : α)   -- the guard passed and the index was in range
+  | skipped         -- the guard failed: the index is not evaluated
+  | indexError      -- IndexError: list index out of range
+  | typeError       -- 'NoneType' object is not subscriptable
+  deriving DecidableEq, Repr
+
+/-- `guard and xs[0]` -/
+def indexFirst {α : Type} (g : ListGuard) (xs : Option (List α)) : IdxOut α :=
+  match g, xs with
+  | .truthy, none => .skipped
+  | .truthy, some [] => .skipped
+  | .truthy, some (a :: _) => .value a
+  | .notNone, none => .skipped
+  | .notNone, some [] => .indexError
+  | .notNone, some (a :: _) => .value a
+  | .unguarded, none => .typeError
+  | .unguarded, some [] => .indexError
+  | .unguarded, some (a :: _) => .value a
+
 end SqlglotModel.FormatScan
